@@ -22,7 +22,8 @@ CLAIMED = {
         "note": "Trusted: clang 14 AST/CFG, libstdc++ iostream semantics, equivalence of per-file units with the unity build, NDEBUG as shipped.",
     },
     "C11": {
-        "level": "proof",
+        # "other", not "proof": one obligation (R11.8, the next_index emitted before renumbering) is a recorded known finding
+        "level": "other",
         "design_ref": "DESIGN.md section 3, C11 (R11.1, R11.2, R11.4)",
         "technique": "AST rules: index-field coverage of every remap_indices, renumbering order, header/entry accessor agreement",
         "text": ("Decides the closure clauses of C11 that are visible in the code's shape: every index-typed field (found by its "
@@ -31,7 +32,7 @@ CLAIMED = {
                  "the literal 1; InterfaceMakerC::write_function_header and FunctionRemap::make_wrapper_entry take name, return type "
                  "(same void test) and every parameter type from the same accessors.  Not decided: correctness of the indices the "
                  "builder stored before renumbering, distinctness of unique names (run-time hash values)."),
-        "note": "Trusted: clang 14 AST/CFG; typedef sugar identifies index fields; std::map iteration order.",
+        "note": "Trusted: clang 14 AST/CFG; typedef sugar identifies index fields; std::map iteration order.  The rules are exhaustive over their instances (every index field, every reader loop ...), but the level is `other` because one obligation is a known finding (F-C11c) rather than discharged.",
     },
     "C20": {
         "level": "proof",
